@@ -6,7 +6,7 @@ from ..env import np, puan, pnd
 ID = "C19"
 RULE = ("Mode M: EVERY matrix [b|A] with 1..2 rows x 1..2 columns over {-1,0,1,2} (quick: 2x2 over {-1,0,1}; thorough adds 3x2 / 2x3 over {-1,0,1}) x EVERY points array of "
         "(the polyhedron OBJECT is reused from matrix to matrix by in-place assignment, plus a fresh object every 4th matrix) "
-        "ndim 1 (one point), ndim 2 (1..3 points), ndim 3 (1..2 groups x 1..2 points) over {-1,0,1} (over {0,1} where the product would exceed 100 arrays). oracle: direct A p >= b per point; "
+        "ndim 1 (one point), ndim 2 (1..3 points), ndim 3 (1..2 groups x 1..2 points) over {-1,0,1}, handed over as C-ordered, Fortran-ordered and non-contiguous arrays in rotation, (over {0,1} where the product would exceed 100 arrays). oracle: direct A p >= b per point; "
         "ineqs_satisfied = all rows per point, separable = its negation, ineq_separate_points = per row 'some point of the group violates'; "
         "output shapes (), (n,), (g,n) resp. (r,), (r,), (g,r). non-trivial = distinct (matrix, points) with mixed verdicts")
 ASSUMPTIONS = ["points are integer arrays of the polyhedron's column count"]
@@ -111,9 +111,20 @@ def check_matrix(M, c, pv, acc, case, only=None, P=None):
             want_isp = (~h3).any(axis=1)
             shp = ((g, n), (g, n), (g, M.shape[0]))
         try:
-            sat = P.ineqs_satisfied(pts.copy())
-            sep = P.separable(pts.copy())
-            isp = P.ineq_separate_points(pts.copy())
+            # memory layout is not part of the value: C-ordered copies, Fortran-ordered copies and non-contiguous views in rotation
+            lay = pi % 3 if pts.ndim >= 2 else 0
+
+            def arg():
+                if lay == 1:
+                    return np.asfortranarray(pts)
+                if lay == 2:
+                    big = np.zeros(pts.shape[:-1] + (2 * pts.shape[-1],), dtype=pts.dtype)
+                    big[..., ::2] = pts
+                    return big[..., ::2]
+                return pts.copy()
+            sat = P.ineqs_satisfied(arg())
+            sep = P.separable(arg())
+            isp = P.ineq_separate_points(arg())
         except BaseException as e:
             acc.violation(None, cs, {"what": "classification API raised", "exc": repr(e), "matrix": M.tolist(), "points": pts.tolist()})
             return
